@@ -2,7 +2,7 @@
    issued, it is issued only when no eviction is recorded in the job status, and it leaves an
    Eviction condition behind; a recorded eviction is never forgotten. *)
 From Coq Require Import List ZArith Bool Lia.
-From Verif Require Import C17.Model C17.Spec C17.Hoare.
+From Verif Require Import C17.Model C17.Spec C17.Hoare C17.Proofs_ver.
 Import ListNotations.
 Open Scope Z_scope.
 
@@ -34,12 +34,14 @@ Section PassB.
 Variable fx : bool.
 Variable evd0 : Prop.   (* an eviction was recorded when the reconcile started *)
 
-Definition K0 (c : ctx) : Prop := nofault (cf c) /\ nev (ce c) = 0%nat /\ (evd0 -> evd (cj c)).
+Definition K0 (c : ctx) : Prop :=
+  (cstale c = false /\ nofault (cf c)) /\ nev (ce c) = 0%nat /\ (evd0 -> evd (cj c)).
 Definition KF (c : ctx) : Prop :=
   (nev (ce c) <= 1)%nat /\ (nev (ce c) = 1%nat -> ~ evd0 /\ evd (cj c)) /\ (evd0 -> evd (cj c)).
 
 Ltac fin :=
-  match goal with H : K0 _ |- _ => destruct H as (Hf & Hn & He) end;
+  match goal with H : K0 _ |- _ => destruct H as ((Hs & Hf) & Hn & He) end;
+  try match goal with E : cstale _ = true |- _ => congruence end;
   try match goal with E : cf _ = true :: _, F : nofault (cf _) |- _ =>
         rewrite E in F; destruct (nofault_cons_true _ F) end;
   try match goal with E : cf _ = false :: ?l, F : nofault (cf _) |- _ =>
@@ -66,7 +68,7 @@ Proof.
   all: enum_unfold; auto.
 Qed.
 Lemma KF_of_K0 c : K0 c -> KF c.
-Proof. intros (Hf & Hn & He). unfold KF. repeat split; intros; try lia; auto. Qed.
+Proof. intros ((Hs & Hf) & Hn & He). unfold KF. repeat split; intros; try lia; auto. Qed.
 
 Lemma B_evict e c : K0 c -> sat KF K0 (st_evict fx e c).
 Proof.
@@ -132,15 +134,15 @@ Qed.
 End PassB.
 
 (* one reconcile without faults *)
-Lemma reconcile_once fx s f : nofault f ->
+Lemma reconcile_once fx s f : W s -> nofault f ->
   let r := reconcile fx s f in
   (nev (snd r) <= 1)%nat
   /\ (nev (snd r) = 1%nat -> ~ evd (sj s) /\ evd (sj (fst r)))
   /\ (evd (sj s) -> evd (sj (fst r))).
 Proof.
-  intros NF. unfold reconcile. destruct (ignored (sj s) (sgen s)).
+  intros HW NF. cbv zeta. destruct (reconcile_cases fx s f HW) as [E|(_ & E)]; rewrite E.
   - cbn. repeat split; intros; auto; discriminate.
-  - set (o := do_migrate fx _ _).
+  - unfold core. set (o := do_migrate fx _ _).
     assert (S : sat (KF (evd (sj s))) (K0 (evd (sj s))) o).
     { apply B_do_migrate. unfold K0. cbn. auto. }
     assert (F : KF (evd (sj s)) (ctx_of o)).
